@@ -131,7 +131,7 @@ func VP_C18_fat32_table() {
 	vp.Unwind(max/4 + 4)
 	if n < 8 {
 		// KF-C18-7: a FAT shorter than its two reserved entries: slice out of range
-		vp.KnownPanic("KF-C18-7", "fat32.tableFromBytes)")
+		vp.KnownPanic("KF-C18-7", "fat32.tableFromBytes) | slice bounds out of range")
 	}
 	vp.NoPanic()
 	t := tableFromBytes(b)
@@ -142,6 +142,13 @@ func VP_C18_fat32_table() {
 			vp.Assert(t.ClusterValue(uint32(i)) == binary.LittleEndian.Uint32(all[4*i:]), "entry decoded per the 32-bit layout")
 		}
 	}
+	// contract the chain walker relies on: it rejects links above MaxCluster() and indexes every other value
+	idx := vp.U32("idx")
+	vp.Assume(idx <= t.MaxCluster())
+	vp.NoPanic()
+	_ = t.ClusterValue(idx)
+	t.SetCluster(idx, t.EOCMarker())
+	vp.AllowPanic()
 	vp.Cover("table decoded")
 }
 
@@ -156,7 +163,7 @@ func c18ReadGeom(size int64) {
 	bps := uint32(dev.ByteAt(11)) | uint32(dev.ByteAt(12))<<8
 	if spf*bps < 8 {
 		// KF-C18-7: a FAT shorter than its two reserved entries (e.g. sectorsPerFat = 0)
-		vp.KnownPanic("KF-C18-7", "fat32.tableFromBytes)")
+		vp.KnownPanic("KF-C18-7", "fat32.tableFromBytes) | slice bounds out of range")
 	}
 	vp.NoPanic()
 	t0 := c18AllocBegin()
